@@ -8,8 +8,10 @@ Conventions.
 * The cursor `Cur` is the not yet consumed suffix of `_text` together with `_pos`; `_text[_pos]` is the head of the suffix,
   `_pos >= _text.size()` is "the suffix is empty".  `pos + rest.length = _text.size()` is an invariant (theorem `J4`).
 * Numbers that take the floating path are *not* computed here: `FloatOps.strtod` is applied to the exact token the C++
-  hands to `std::strtod`, and `FloatOps.fmt` stands for `Json::_formatDouble`.  A double is represented by its IEEE-754 bit
-  pattern (`UInt64`) and is only ever compared for equality.  No theorem mentions `Float`.
+  hands to `std::strtod`, and `FloatOps.printfG p d` stands for `snprintf("%.*g", p, d)`; `Json::_formatDouble` itself (the
+  15..17 precision loop, the `.0` suffix, `null` for non-finite values) is modelled (`formatDouble`).  A double is represented by
+  its IEEE-754 bit pattern (`UInt64`); only its exponent/fraction fields are inspected (`isFiniteBits`, `dblEq`).  No theorem
+  mentions `Float`.
 * `Json.obj` is an association list with pairwise distinct keys in the order of first insertion
   (`std::unordered_map::operator[]` + assignment = `insertOrAssign`); the iteration order of the real hash map is not modelled,
   `serialize` takes whatever order the list has (theorem J2 holds for every order).
@@ -52,12 +54,12 @@ inductive Json
   | arr (xs : List Json)
   | obj (ms : List (Bytes × Json))
 
-/-- the two libc primitives on the floating path, as parameters -/
+/-- the libc primitives on the floating path, as parameters (a double is its IEEE-754 bit pattern) -/
 structure FloatOps where
-  /-- `std::strtod` applied to a JSON number token; result as IEEE-754 bits -/
+  /-- `std::strtod` applied to a number token; result as IEEE-754 bits -/
   strtod : Bytes → UInt64
-  /-- `Json::_formatDouble` -/
-  fmt : UInt64 → Bytes
+  /-- `std::snprintf(buf, sizeof buf, "%.*g", precision, d)` -/
+  printfG : Nat → UInt64 → Bytes
 
 structure Cur where
   rest : Bytes
@@ -380,6 +382,31 @@ def natToDec (n : Nat) : Bytes :=
   if h : n < 10 then [b8 (48 + n)] else natToDec (n / 10) ++ [b8 (48 + n % 10)]
 decreasing_by omega
 
+/-- `std::isfinite` on the bit pattern: the exponent field is not all ones -/
+def isFiniteBits (b : UInt64) : Bool := decide ((b.toNat / 2 ^ 52) % 2048 ≠ 2047)
+/-- `±0.0` -/
+def isZeroBits (b : UInt64) : Bool := decide (b.toNat % 2 ^ 63 = 0)
+/-- NaN: exponent all ones, fraction non-zero -/
+def isNaNBits (b : UInt64) : Bool := decide ((b.toNat / 2 ^ 52) % 2048 = 2047 ∧ b.toNat % 2 ^ 52 ≠ 0)
+/-- `operator==` on `double`: NaN equals nothing, `+0.0 == -0.0`, otherwise the bit patterns are equal -/
+def dblEq (a b : UInt64) : Bool := !isNaNBits a && !isNaNBits b && (a == b || (isZeroBits a && isZeroBits b))
+
+/-- the `for (precision = lo; precision <= hi; ++precision)` loop of `_formatDouble`: `k` = remaining precisions after `p`;
+    the last precision is used unconditionally (the loop ends with its text in `buf`) -/
+def fmtSearch (ops : FloatOps) (d : UInt64) : Nat → Nat → Bytes
+  | 0, p => ops.printfG p d
+  | k + 1, p => if dblEq (ops.strtod (ops.printfG p d)) d then ops.printfG p d else fmtSearch ops d k (p + 1)
+
+/-- `out.find_first_of(".eE") != npos` -/
+def hasMarker (s : Bytes) : Bool := s.any fun c => Gen.Json.fmtMarkers.contains c.toNat
+
+/-- mirrors `Json::_formatDouble` -/
+def formatDouble (ops : FloatOps) (d : UInt64) : Bytes :=
+  if !isFiniteBits d then Gen.Json.fmtNonFinite.toList.map fun c => b8 c.toNat
+  else
+    let s := fmtSearch ops d (Gen.Json.fmtPrecHi - Gen.Json.fmtPrecLo) Gen.Json.fmtPrecLo
+    if hasMarker s then s else s ++ Gen.Json.fmtSuffix.map b8
+
 /-- `std::to_string(std::int64_t)` -/
 def intToDec (i : Int) : Bytes :=
   if i < 0 then 0x2D :: natToDec i.natAbs else natToDec i.natAbs
@@ -415,7 +442,7 @@ def serialize (ops : FloatOps) (o : Opts) (depth : Nat) : Json → Bytes
   | .null => litNull
   | .bool b => if b then litTrue else litFalse
   | .int i => intToDec i
-  | .dbl d => ops.fmt d
+  | .dbl d => formatDouble ops d
   | .str s => escapeString s
   | .arr xs =>
     if xs.isEmpty then [0x5B, 0x5D]
